@@ -390,9 +390,21 @@ class World(object):
         elif k == 'connect':   # a new client connects (possibly while receivers are paused)
           from twisted.internet.testing import StringTransport
           p = self.protocols.MetricLineReceiver()
-          p.makeConnection(StringTransport())
-          p.verif_connected_while_paused = bool(state.metricReceiversPaused)
-          p.verif_state_after_connect = p.transport.producerState
+
+          class CountingTransport(StringTransport):
+            pause_calls = 0
+
+            def pauseProducing(self):
+              self.pause_calls += 1
+              StringTransport.pauseProducing(self)
+          paused_before = bool(state.metricReceiversPaused)
+          p.makeConnection(CountingTransport())
+          # "connections made while paused are paused too": the flag was set before and after the connection was made and
+          # nobody ever asked the transport to pause.  (The producing state a moment later is not the observation: the
+          # writer thread may have resumed everybody in between - with RELAY_CACHE_METRICS even while the flag is set
+          # again by a pause nested in that resume dispatch.)
+          p.verif_connected_while_paused = paused_before and bool(state.metricReceiversPaused)
+          p.verif_state_after_connect = 'paused' if p.transport.pause_calls else p.transport.producerState
           # a pause/resume being dispatched by the writer thread right now makes this instantaneous observation meaningless
           import sys as _s
           wt = sc.threads[1].thread
@@ -409,7 +421,7 @@ class World(object):
         elif k == 'relaybuf':     # RELAY_CACHE_METRICS: a self-metric is handed to the relay manager (no destination is up)
           if state.client_manager is not None:
             h.self_prefix = self.settings.CARBON_METRIC_PREFIX + '.'
-            state.client_manager.sendDatapoint('carbon.agents.self.m%d' % (vcount[0] % 3), (999900, float(vcount[0])))
+            state.client_manager.sendDatapoint('carbon.agents.self.m%d' % (vcount[0] % 2), (999900 + (vcount[0] // 2) % 3, float(vcount[0])))
             vcount[0] += 1
         elif k == 'disconnect':   # a client goes away
           if len(protos) > 1:
